@@ -695,6 +695,8 @@ def write_evidence(pid, P, tier, seed, recs, wall, rcode):
     # runs against another tree (VERIF_REPO=<scratch worktree>, used to try seeded changes) must not
     # overwrite the evidence of /repo
     evdir = os.path.join(ROOT, 'evidence') if REPO == '/repo' else '/var/tmp/verif_other_tree/evidence'
+    if tier not in ('quick', 'thorough'):   # parked obligations are development runs: never the committed evidence
+        evdir = '/var/tmp/verif_experimental/evidence'
     os.makedirs(evdir, exist_ok=True)
     json.dump(ev, open(os.path.join(evdir, pid + '.json'), 'w'), indent=1, default=str)
 
